@@ -41,14 +41,19 @@ def dag_workload(n, idx, halt=None):
 W.dag_workload = dag_workload
 
 
-def reference_outcomes(w, workload, **kw):
+def reference_outcomes(w, workload, all_orders=False, **kw):
     """Admissible outcome set: FIFO outcome for confluent workloads, every
     outcome reachable by reordering alone (no fault) for racy ones."""
     st, ledger = fifo_reference(w, workload, **kw)
     fifo = dumps(st.view.outcome())
-    if workload.klass == "confluent":
+    if workload.klass == "confluent" and not all_orders:
         return {fifo}, ledger, None
-    ex = Explorer(w, workload, [], {}, **kw).run()
+    from .monitors import MaxExecCollector
+
+    col = MaxExecCollector()
+    ex = Explorer(w, workload, [col], {}, **kw).run()
+    ex.ref_max = col.max
+    ex.fifo_status = {lab: s_["status"] for lab, s_ in st.view.stages.items()}
     outs = set(ex.outcomes) | {fifo}
     return outs, ledger, ex
 
